@@ -403,18 +403,23 @@ def date(year, month_, day):
     if year < 1900:
         year += 1900
 
-    # taking into account negative month and day values
-    year, month_, day = normalize_year(year, month_, day)
+    # taking into account negative month values, then count the days
+    # (which can be negative or past the end of the month) from day 1
+    year, month_, _ = normalize_year(
+        math.floor(year), math.floor(month_), 1)
+    if not (1 <= year <= 10399):
+        return NUM_ERROR
 
-    try:
-        result = (dt.datetime(year, month_, day) - DATE_ZERO).days
-        if result <= 60:
-            result -= 1
-    except ValueError:
-        assert (year, month_, day) == LEAP_1900_TUPLE
-        result = 60.0
+    # the Gregorian calendar repeats every 400 years (146097 days)
+    cycles = 1 if year > 9999 else 0
+    result = (dt.datetime(year - 400 * cycles, month_, 1) - DATE_ZERO).days
+    result += 146097 * cycles
+    if result <= 60:
+        # excel thinks 1900 is a leap year
+        result -= 1
+    result += math.floor(day) - 1
 
-    if result < 0:
+    if result < 0 or result >= DATE_MAX_INT:
         return NUM_ERROR
     return result
 
